@@ -23,6 +23,33 @@ def exhaustive_items():
                     out.append({'doc': d, 'exprs': ex[k:k + 28], 'merged': True, 'binds': [('p', 'urn:p')]})
     return out
 
+def scalar_items():
+    """whole queries through the core function library and the operators at the boundary values of double
+    arithmetic (the per-function statement is C09's; here the same values travel through query(): literals,
+    node string-values converted by number(), predicates that compare a rounded value with the node)"""
+    B = ['0.49999999999999994', '0.5', '1.5', '2.5', '0.2', '4503599627370497', '4503599627370496.5', '9007199254740993',
+         '0.1', '0.30000000000000004', '1000000000000000000000', '0.0000001', '0']
+    doc = '<r>' + ''.join('<v>%s</v><v>-%s</v>' % (b, b) for b in B) + '<v> 12 </v><v>abc</v><v/></r>'
+    ex = []
+    for b in B:
+        for sg in ('', '-'):
+            x = sg + b
+            for f in ('round', 'floor', 'ceiling'):
+                ex.append('%s(%s)' % (f, x))
+                ex.append('1 div %s(%s)' % (f, x))
+            ex.append('string(%s)' % x)
+            ex.append('%s + 0.1' % x)
+            ex.append('%s mod 2' % x)
+            ex.append("substring('abcdef', %s, 2)" % x)
+            ex.append("substring('abcdef', 1, %s)" % x)
+    for f in ('round', 'floor', 'ceiling'):
+        ex.append('/r/v[%s(.) = .]' % f)
+        ex.append('count(/r/v[%s(.) = .])' % f)
+        ex.append('sum(/r/v[%s(.) < 10])' % f)
+        ex.append('/r/v[1 div %s(.) < 0]' % f)
+    ex += ['sum(/r/v)', '/r/v[. > 0.49999999999999994]', '/r/v[number(.) != number(.)]', 'string(sum(/r/v[position() < 5]))']
+    return [{'doc': doc, 'exprs': ex[k:k + 30], 'merged': True, 'binds': [('p', 'urn:p')]} for k in range(0, len(ex), 30)]
+
 def c05_oracle(case, out, item):
     """spec vs implementation on one concrete case -> 'spec-mismatch' or None"""
     if out.get('hang'):
@@ -50,11 +77,11 @@ def check(run):
     items = X.generated_cases(run.seed + 5, 900 if quick else 12000, run.tier)
     for it in items:                       # the property is claimed in the merged-text view, XPath 1.0 has no default binding
         it['merged'] = True
-        it['binds'] = [('p', 'urn:p'), ('q', 'urn:q')]
+        it['binds'] = [b for b in it['binds'] if b[0] is not None]   # every prefix the expressions use stays bound (p, q and, for default-namespace documents, d)
     ex = exhaustive_items()
     if quick:
         ex = ex[::6]
-    items += ex + X.corpus_items('C05')
+    items += ex + scalar_items() + X.corpus_items('C05')
     res, okm = X.evaluate(items, spec=True)
     if not okm:
         run.tie_breaks.append('model driver failed on some case')
